@@ -1,4 +1,5 @@
 """C15 - wire types. Spec: WireResp.tla (acceptance predicate over member sequences; code table). Binding: B + i32 sweep + sampled round trips."""
+import json
 import vlib
 from checks import g
 
@@ -29,16 +30,41 @@ def run(tier):
         if r.get("stat") == "roundtrips":
             rep.cov["sampled_round_trips"] = r["n"]
             rep.cov["evaluations"] += r["n"]
+    # ---- the emission clause ("every message the library emits is valid JSON-RPC 2.0") on the messages a server really emits:
+    # the single-message and batch exchanges of C01 / C02 (Wire.tla), run again here and judged for one thing only - is every
+    # frame / body a response object, a non-empty array of them, or a notification
+    we = vlib.tlc("MC_Wire", "MC_Wire_single.cfg", workers=4, timeout=300, coverage=False)
+    wb = vlib.tlc("MC_Wire", "MC_Wire_batch.cfg", workers=4, timeout=600, coverage=False)
+    rep.add_tlc(we, "emission: every single message over the member-class alphabet (Wire.tla)")
+    rep.add_tlc(wb, "emission: every batch of 0..MaxBatch entries x 4 batch configs (Wire.tla)")
+    stride = 4 if tier == "quick" else 1
+    owned = lambda key: key.startswith("emitted:") or ":malformed-reply" in key
+    ce = sorted(we["replay"], key=lambda c: json.dumps(c, sort_keys=True))[::stride]
+    cb = sorted(wb["replay"], key=lambda c: json.dumps(c, sort_keys=True))
+    cb = [c for c in cb if c["ws"]["k"] != "array"] + [c for c in cb if c["ws"]["k"] == "array"][::stride]
+    if len(ce) < 2000 or len(cb) < 1000 or not any(c["ws"]["k"] == "none" for c in cb):
+        raise vlib.ToolError("vacuity: emission cases incomplete")
+    g.replay_flow(rep, "c01", ce, k=1, timeout=3000, only_keys=owned)
+    g.replay_flow(rep, "c02", cb, k=1, timeout=3000, only_keys=owned)
+    rep.cov["emission_exchanges"] = len(ce) + len(cb)
     rep.cov["exhaustive"] = True
     rep.cov["rule"] = ("every sequence of <= 5 response members over {jsonrpc 2.0 / null / other string / non-string, id, id outside the "
                        "domain, result, error, unknown} with the TLA+ acceptance predicate as oracle (accepted objects must also carry "
                        "the sent id/payload and survive serialise-parse-serialise byte-identically); the code table over named codes +-1 "
                        "and extremes; a sweep of i32 codes against the table TLC exported (every code in thorough, stride 4099 + the "
                        "dense window -40000..-30000 in quick); seeded round trips of Id, SubscriptionId, Request, Notification, "
-                       "ErrorObject, Response (sampling); non-trivial = rejected member sequence or a code case")
+                       "ErrorObject, Response (sampling); emission: the single-message and batch exchanges of Wire.tla (every batch that is "
+                       "answered by no array; a quarter of the rest in quick, all in thorough) sent to a real server over HTTP and WebSocket, "
+                       "every frame / body judged: a response object with jsonrpc 2.0, an id and exactly one of result / error, a "
+                       "non-empty array of such, or a notification; non-trivial = rejected member sequence or a code case")
     rep.assumptions += ["value-level round trips are sampling, the member-sequence domain and the code table are exhaustive"]
     return rep.finish()
 
 
 def replay(path):
+    d = json.load(open(path))
+    if d.get("key", "").startswith("emitted:"):
+        return g.replay_one("c02", path)
+    if ":malformed-reply" in d.get("key", ""):
+        return g.replay_one("c01", path)
     return g.replay_one("c15", path)
